@@ -3,7 +3,7 @@ NEXT Next
 CONSTANTS
   Part = "pow"
   MaxDim = 4
-  NReal = 6
+  NReal = 7
   NCplx = 3
   Big = TRUE
 INVARIANT InvOutcomeDomain
@@ -18,5 +18,6 @@ INVARIANT InvPow
 INVARIANT InvPow2
 INVARIANT InvChain
 INVARIANT InvGroupFlat
+INVARIANT InvLiteral
 INVARIANT InvScopeDefault
 INVARIANT InvScopeLocal
